@@ -81,11 +81,13 @@ func newLexer(env *ExecEnv, r io.RuneScanner) *lexer {
 		token:  make(chan interface{}),
 		cancel: make(chan struct{}),
 	}
+	vpoint(l, vSpawn)
 	go l.run()
 	return l
 }
 
 func (l *lexer) Lex(lval *yySymType) int {
+	vpoint(l, vRecv)
 	switch tok := (<-l.token).(type) {
 	case token:
 		lval.expr.s = tok.val
@@ -98,6 +100,8 @@ func (l *lexer) Lex(lval *yySymType) int {
 }
 
 func (l *lexer) run() {
+	defer vpoint(l, vExit)
+	vpoint(l, vStart)
 	defer func() {
 		close(l.token)
 
@@ -351,12 +355,14 @@ func (l *lexer) emit(typ int) {
 	default:
 		tok = typ
 	}
+	vsend(l)
 	select {
 	case l.token <- tok:
 	case <-l.cancel:
 		// bailout
 		panic(errBailout)
 	}
+	vsendPost(l)
 }
 
 func (l *lexer) read() (rune, error) {
@@ -371,6 +377,7 @@ func (l *lexer) unread() {
 // set assigns value to the variable named by the name, unless an error
 // has already been reported.
 func (l *lexer) set(name, value string) {
+	vpoint(l, vSet)
 	l.mu.Lock()
 	defer l.mu.Unlock()
 
@@ -380,6 +387,7 @@ func (l *lexer) set(name, value string) {
 }
 
 func (l *lexer) Error(s string) {
+	vpoint(l, vErr)
 	l.mu.Lock()
 	defer l.mu.Unlock()
 
